@@ -75,6 +75,22 @@ def gen_field(rng, style=None, substvars=True, few_names=True):
     more = [(G.ws(rng, style, kind="sep"), item()) for _ in range(rng.choice([0, 1, 2, 2, 3, 5, 8]))]
     return (G.ws(rng, style, kind="sep"), first, more)
 
+def gen_long_field(rng):
+    """more than 20 entries / alternatives: beyond Rust's insertion-sort threshold, where slice::sort
+    is driftsort -- for a total preorder the result is the same stable sorted permutation"""
+    style = rng.choice(["tight", "policy", "lossy"])
+    names = rng.sample(NAMES, rng.choice([1, 2, 3]))
+    n = rng.choice([21, 22, 25, 33, 48, 70])
+    def entry(k):
+        r0 = gen_rel(rng, style, names, p_ver=0.8)
+        alts = [(G.ws(rng, style, kind="sep"), gen_rel(rng, style, names, p_ver=0.8)) for _ in range(k)]
+        return ("E", r0, alts)
+    if rng.random() < 0.5:
+        items = [entry(rng.choice([0, 0, 1, 2])) for _ in range(n)]
+    else:
+        items = [entry(n), entry(rng.choice([0, 1, 22]))]
+    return ("", items[0], [(G.ws(rng, style, kind="sep"), i) for i in items[1:]])
+
 def items_of(f): return [f[1]] + [i for _, i in f[2]]
 
 def reorder(f, how, rng):
@@ -212,6 +228,8 @@ def wf_cases(tier, rng, flags, prefix="w"):
         else:
             f = reorder(gen_field(rng), rng.choice(["sorted", "reversed", "shuffled"]), rng)
         add(f)
+        if i % 150 == 0:
+            add(gen_long_field(rng))
         if i % 400 == 0:                                          # the known class: a digit run above i32::MAX
             g = gen_field(rng, style="policy")
             rels = [r for r in G.rels_of(g)]
